@@ -10,7 +10,7 @@
    Hash-based collections are lists; every iteration order is taken from the parameter [o]. Definitions only. *)
 From Coq Require Import String Ascii.
 From Coq Require Import List Arith Bool.
-Require Import TT.Model.Base TT.Model.Str TT.Model.C07TypeParse TT.Model.Harvest TT.Model.C07Worklist TT.Model.Topo.
+Require Import TT.Model.Base TT.Model.Str TT.Model.C07TypeParse TT.Model.C07Harvest TT.Model.C07Worklist TT.Model.Topo.
 Import ListNotations.
 Local Open Scope list_scope.
 
@@ -52,6 +52,7 @@ Definition S_FIELD := 4.     (* nested_types of one field (key = type name) *)
 Definition S_STRUCTS := 5.   (* discovered_structs / used_structs HashMap iteration *)
 Definition S_REQ := 6.       (* type_names handed to topological_sort_types *)
 Definition S_EVENT := 7.     (* event_types of one event *)
+Definition S_CLOSURE := 8.   (* closure of one event: payload names with their nested dependencies *)
 Definition orders := nat -> str -> list str -> list str.
 
 Definition str_dec : forall a b : str, {a = b} + {a <> b} := list_eq_dec ascii_dec.
@@ -89,7 +90,11 @@ Definition is_tauri_param (q : cty) : bool :=
 Definition channel_msg (q : cty) : option cty :=
   match q with
   | CPath segs n _ args =>
-      if str_eqb n (L "Channel") && (match segs with [] => true | t :: _ => str_eqb t (L "tauri") end)
+      if str_eqb n (L "Channel")
+         && (match segs with
+             | [] => true
+             | [t] => str_eqb t (L "tauri") || str_eqb t (L "ipc")      (* use tauri::ipc; ipc::Channel<T> *)
+             | t :: _ => str_eqb t (L "tauri") end)
       then match args with a :: _ => Some a | [] => None end else None
   | _ => None
   end.
@@ -174,7 +179,15 @@ Definition used_types (o : orders) (p : project) (disc : list str) : option (lis
   nested str_dec (fields_ts o p) (fun n => smemb n disc)
          (S (S (List.length init + List.length disc + List.length disc))) init [] init.
 
-(* generate_models: used_structs, then the direct payload types of events *)
+(* generate_models: the names an event payload mentions together with their nested dependencies
+   (discover_nested_dependencies started from the payload names) *)
+Definition event_closure (o : orders) (p : project) (disc : list str) (e : str) : option (list str) :=
+  let init := o S_EVENT e (ts_of e) in
+  option_map (o S_CLOSURE e)
+    (nested str_dec (fields_ts o p) (fun n => smemb n disc)
+            (S (S (List.length init + List.length disc + List.length disc))) init [] init).
+
+(* generate_models: used_structs, then for every event the discovered types of its closure *)
 Definition declared (o : orders) (p : project) : option (list str) :=
   match discovered o p with
   | None => None
@@ -183,7 +196,10 @@ Definition declared (o : orders) (p : project) : option (list str) :=
     | None => None
     | Some used =>
         let base := filter (fun n => smemb n used) (o S_STRUCTS [] disc) in
-        Some (add_events str_dec disc (map (fun e => o S_EVENT e (ts_of e)) (events p)) base)
+        match mapM (event_closure o p disc) (events p) with
+        | Some closures => Some (add_events str_dec disc closures base)
+        | None => None
+        end
     end
   end.
 
